@@ -67,6 +67,7 @@ class Ctx:
         self.solver_ms = 0.0
         self.nchecks = 0
         self.covers = set()
+        self.tainted = False
 
     # ---- fresh symbols
     def fresh_name(self, base):
@@ -215,6 +216,7 @@ class Ctx:
         else:
             self.results.append(Result(name, "unknown", None, ms, self._path_id(), note or reason))
         # continue the path as if it held (standard assert-then-assume)
+        self.tainted = True
         self.assume(f)
         return False
 
@@ -298,7 +300,7 @@ def explore(harness, timeout_ms=20000, max_paths=20000, max_seconds=600, branch_
                 pass
             ex.completed += 1
             # canary: a path whose condition became unsatisfiable through an `assume` proves everything
-            if ctx.results and ctx._check()[0] == z3.unsat:
+            if ctx.results and not ctx.tainted and ctx._check()[0] == z3.unsat:
                 ex.errors.append("vacuous path: path condition unsatisfiable at the end of a path with obligations %s"
                                  % [r.name for r in ctx.results][:3])
         except PathInfeasible:
